@@ -233,14 +233,40 @@ fn eval_one(req: &Value) -> Value {
 	if embed == "ext" {
 		std_ctx.add_ext_code("__main__", &code).expect("ext code");
 	}
+	// file flavours of ext vars (C15): ImportStr / Import of a path, as the CLI builds them
+	for (k, v) in str_map(req.get("ext_str_file")) {
+		std_ctx
+			.settings_mut()
+			.ext_vars
+			.insert(k.as_str().into(), TlaArg::ImportStr(v));
+	}
+	for (k, v) in str_map(req.get("ext_code_file")) {
+		std_ctx
+			.settings_mut()
+			.ext_vars
+			.insert(k.as_str().into(), TlaArg::Import(v));
+	}
 	let mut sb = State::builder();
-	sb.context_initializer(std_ctx.clone())
-		.import_resolver(MemResolver { files });
+	sb.context_initializer(std_ctx.clone());
+	if let Some(Value::Array(jp)) = req.get("jpath") {
+		// real file system, library paths already in search order
+		let paths = jp
+			.iter()
+			.map(|p| std::path::PathBuf::from(p.as_str().unwrap_or("")))
+			.collect();
+		sb.import_resolver(jrsonnet_evaluator::FileImportResolver::new(paths));
+	} else {
+		sb.import_resolver(MemResolver { files });
+	}
 	let s = sb.build();
 	let _g = s.enter();
 
 	let run = || -> Result<Value> {
 		let val = match embed.as_str() {
+			"entry_file" => s.import_from(
+				&SourcePath::new(jrsonnet_ir::SourceDefaultIgnoreJpath),
+				code.as_str(),
+			)?,
 			"import" => s.import("__main__.jsonnet")?,
 			"ext" => s.evaluate_snippet(name.clone(), "std.extVar('__main__')")?,
 			_ => s.evaluate_snippet(name.clone(), code.as_str())?,
@@ -252,7 +278,17 @@ fn eval_one(req: &Value) -> Value {
 		for (k, v) in str_map(req.get("tla_code")) {
 			tla.insert(k.as_str().into(), TlaArg::InlineCode(v));
 		}
-		let val = if req.get("tla_str").is_some() || req.get("tla_code").is_some() {
+		for (k, v) in str_map(req.get("tla_str_file")) {
+			tla.insert(k.as_str().into(), TlaArg::ImportStr(v));
+		}
+		for (k, v) in str_map(req.get("tla_code_file")) {
+			tla.insert(k.as_str().into(), TlaArg::Import(v));
+		}
+		let val = if req.get("tla_str").is_some()
+			|| req.get("tla_code").is_some()
+			|| req.get("tla_str_file").is_some()
+			|| req.get("tla_code_file").is_some()
+		{
 			apply_tla(&tla, val)?
 		} else {
 			val
